@@ -2157,6 +2157,7 @@ class TagNode(_ElementWrappingNode, NodeBase):
             ),
         )
 
+    @altered_default_filters()
     def _create_by_xpath(
         self,
         ast: XPathExpression,
